@@ -1,7 +1,7 @@
 """C02 - Static resources: the right file, its exact bytes, its media type (DESIGN.md section 4, C02)."""
 import os, hashlib
 from .. import core, fetch, server, httpstrict, models
-from ..gen import tree as treegen
+from ..gen import tree as treegen, req as reqgen
 
 BUILTIN = {"/", "/style.css", "/script.js", "/favicon.svg"}
 RESERVED_PATHS = ("/form-get-method", "/form-url-encoded-enctype-post-method", "/form-multipart-enctype-post-method", "/file-upload/initiate")
@@ -141,7 +141,15 @@ def run(c):
             add_tricky_links(t, rng)
             paths = request_paths(t, rng)
             rng.shuffle(paths)   # no request order is privileged (process-wide state built by earlier requests must not matter)
-            raws = [("GET %s HTTP/1.1\r\nHost: localhost\r\n\r\n" % p).encode("utf-8") for p in paths]
+            # request headers do not take part in the lookup either: every sixth request carries one or two headers of the
+            # standard vocabulary (conditional, negotiation, Fetch metadata, client hints, forwarding ...; never Range)
+            extra = [(n, v) for n, vs in reqgen.HEADER_DICTIONARY for v in vs[:2] if n.lower() not in ("range", "if-range", "content-length", "transfer-encoding", "host", "expect", "content-range")]
+            raws = []
+            for pi, p in enumerate(paths):
+                hx = ""
+                if pi % 6 == 5:
+                    hx = "".join("%s: %s\r\n" % rng.choice(extra) for _ in range(rng.range(1, 2)))
+                raws.append(("GET %s HTTP/1.1\r\nHost: localhost\r\n%s\r\n" % (p, hx)).encode("utf-8"))
             res_by_entry = {}
             for entry in ("process", "legacy"):
                 res_by_entry[entry] = fetch.inproc(t.root, raws, entry=entry)
